@@ -320,6 +320,35 @@ pub fn shl_limbs_step<const N: usize, const K: usize>() {
     }
 }
 
+pub fn shl_limbs_after_clone<const N: usize, const K: usize>() {
+    // a cloned heap vector has only `len` limbs reserved: the raw-pointer move inside shl_limbs must stay inside what
+    // capacity() reports, and capacity() must be what is really allocated (Kani checks every access)
+    let a: [Limb; N] = any_arr();
+    let orig = mk(&a);
+    let mut v = orig.clone();
+    let cap = v.capacity();
+    let r = bigint::shl_limbs(&mut v, K);
+    if r.is_some() {
+        assert!(N == 0 || N + K <= cap);
+        if N > 0 {
+            assert!(v.len() == N + K);
+            let mut j = 0;
+            while j < N {
+                assert!(v[K + j] == a[j]);
+                j += 1;
+            }
+            let mut i = 0;
+            while i < K {
+                assert!(v[i] == 0);
+                i += 1;
+            }
+        }
+    } else {
+        assert!(N + K > cap);
+        assert!(same(&v, &a, N));
+    }
+}
+
 pub fn shl_step<const N: usize, const K: usize, const BITS: usize>() {
     // shl(n) with n = 64*K + BITS, both concrete (shl_bits is verified for symbolic bit counts at every length;
     // a symbolic n here turns the limb move into a symbolic-offset memmove, which CBMC cannot finish)
@@ -471,4 +500,58 @@ pub fn pow_decomposition() {
     }
     assert!(total == exp);
     kani::cover!(exp >= 135 && exp % 27 != 0, "opt:large, small and remainder factors");
+}
+
+// ---- concrete-operand runs of the composed operations (no symbolic data: CBMC folds them) ---------------------
+// They pin down long_mul / large_mul / pow end to end on fixed operands (value-dependent lengths make the symbolic
+// versions intractable) and, under the allocator stub of C15, show that these paths do not allocate.
+pub fn long_mul_concrete() {
+    let x: [Limb; 3] = [0x1234_5678_9abc_def0, 0xffff_ffff_ffff_ffff, 0x0fed_cba9_8765_4321];
+    let y: [Limb; 5] = [1414648277510068013, 9180637584431281687, 4539964771860779200, 10482974169319127550, 198276706040285095];
+    let z = bigint::long_mul(&x, &y).unwrap();
+    // schoolbook reference
+    let mut e = [0 as Limb; 8];
+    let mut j = 0;
+    while j < 5 {
+        let mut carry: u128 = 0;
+        let mut i = 0;
+        while i < 3 {
+            let p = (x[i] as u128) * (y[j] as u128) + e[i + j] as u128 + carry;
+            e[i + j] = p as Limb;
+            carry = p >> 64;
+            i += 1;
+        }
+        e[3 + j] = carry as Limb;
+        j += 1;
+    }
+    let n = if e[7] != 0 { 8 } else { 7 };
+    assert!(same(&z, &e, n));
+    let mut v = mk(&x);
+    assert!(bigint::large_mul(&mut v, &y).is_some());
+    assert!(same(&v, &e, n));
+}
+
+pub fn pow_concrete() {
+    // 7 * 5^300 through the real pow (two 5^135 steps, one 5^27 step, one 5^3 step) against 300 multiplications by 5
+    let mut v = VecType::from_u64(7);
+    assert!(bigint::pow(&mut v, 300).is_some());
+    let mut e = [0 as Limb; 16];
+    e[0] = 7;
+    let mut k = 0;
+    while k < 300 {
+        let mut carry: u128 = 0;
+        let mut i = 0;
+        while i < 16 {
+            let p = (e[i] as u128) * 5 + carry;
+            e[i] = p as Limb;
+            carry = p >> 64;
+            i += 1;
+        }
+        k += 1;
+    }
+    let mut n = 16;
+    while n > 0 && e[n - 1] == 0 {
+        n -= 1;
+    }
+    assert!(same(&v, &e, n));
 }
